@@ -1,7 +1,9 @@
+\* thorough tier: a fifth byte value (128: sign bit, UTF-8 continuation byte, high bit of a length) and no pruning
 SPECIFICATION Spec
-CONSTANTS Alphabet = {0, 1, 2, 255}
- MaxLen = 7
+CONSTANTS Alphabet = {0, 1, 2, 128, 255}
+ MaxLen = 6
  Sids = {}
  Emit = FALSE
+ Prune = FALSE
  ValDepth = 4
 INVARIANTS BytesGood ValuesGood
